@@ -4,7 +4,7 @@ from ..common import case_rng
 from ..crashlab import crash_rounds
 
 RULE = (
-    "case = (scenario in {stage+transfer into a local store with state, index save of nested directories, store-to-store "
+    "case = (scenario in {stage+transfer into a local store with state, index save of nested directories (every directory with an entry, or only the top-level ones), store-to-store "
     "transfer, upload staging, plain add of hashed files}, generated nested tree with duplicates and empty files, kill point n, "
     "plain or partial); the child process os._exit()s before the n-th filesystem-mutating audit event it issues under the "
     "scenario root (quick: every 3rd event plus every event that touches a final object name or is a chmod/rename/copyfile; "
@@ -22,7 +22,7 @@ MONITORS = "post-mortem audit (independent re-hash, mode bits, State.get vouchin
 REQUIRED_COUNTERS = ["crash_children", "reruns", "killed_at/rename", "killed_at/chmod", "killed_at/copyfile/partial", "killed_at/open-w/partial"]
 EXHAUSTIVE = {"quick": False, "thorough": True}
 
-SCENARIOS = ["stage-transfer", "index-save", "store-to-store", "upload-staging", "add-files"]
+SCENARIOS = ["stage-transfer", "index-save", "store-to-store", "upload-staging", "add-files", "index-save-sparse"]
 
 
 def run_shard(ctx):
